@@ -388,6 +388,7 @@ def arg_patterns(pname, default, ctx):
         "replace_inf_by": [None],
         "only_connected": [True], "directed": [True],
         "estimate": [False],
+        "link_density": [0.4],
     }
     table.update(ctx.get("patterns", {}))
     if pname in table:
